@@ -21,6 +21,7 @@ THEOREMS = {
     "C15_page_scale": "full",
     "C15_native_page_unscaled": "full",
     "C15_page_scale_ex": "example",
+    "C15_lists_by_title": "full",
     "C15_error_iff": "full",
     "C15_error_iff_ex": "example",
     "C15_error_iff_hyp_ex": "example",
